@@ -443,3 +443,68 @@ func IsHarnessPanic(pv any) bool {
 
 	return ok && strings.HasPrefix(s, "harness:")
 }
+
+// RunParallel runs the given cases of the property simultaneously, one goroutine each, every goroutine with a monitoring
+// context of its own (the contexts are merged into c afterwards): a sequential property run as several independent
+// instances at once. What each instance observes must still be what it observes alone — interference through package-level
+// state shows as an ordinary violation of one of the instances.
+func (c *Ctx) RunParallel(cases []any) {
+	subs := make([]*Ctx, len(cases))
+	line := StartLine(len(cases))
+	done := make(chan int, len(cases))
+
+	for i := range cases {
+		sub := NewCtx(c.Prop, c.Tier, c.Seed, c.Shard)
+		sub.paranoid = ""
+		sub.cur = cases[i]
+		subs[i] = sub
+
+		go func(i int) {
+			defer func() {
+				if r := recover(); r != nil {
+					if s, ok := r.(string); ok && strings.HasPrefix(s, "harness:") {
+						subs[i].Inconclusive(s)
+					} else {
+						subs[i].Fail("unexpected panic in one of several instances run simultaneously: "+fmt.Sprint(r), "unexpected-panic", map[string]any{"stack": string(debug.Stack())})
+					}
+				}
+
+				done <- i
+			}()
+
+			line()
+			c.Prop.Run(subs[i], cases[i])
+		}(i)
+	}
+
+	for range cases {
+		<-done
+	}
+
+	for _, sub := range subs {
+		c.Res.Evaluations += sub.Res.Evaluations
+		c.Res.ViolationCount += sub.Res.ViolationCount
+
+		for _, v := range sub.Res.Violations {
+			if len(c.Res.Violations) < c.maxViol {
+				v.What = "[run as one of " + fmt.Sprint(len(cases)) + " simultaneous instances] " + v.What
+				c.Res.Violations = append(c.Res.Violations, v)
+			}
+		}
+
+		for k, n := range sub.Res.Counters {
+			c.Res.Counters[k] += n
+		}
+
+		for h := range sub.distinct {
+			c.distinct[h] = struct{}{}
+		}
+
+		if sub.Res.Inconclusive != "" {
+			c.Inconclusive(sub.Res.Inconclusive)
+		}
+	}
+
+	c.Res.Counters["parallel-batches"]++
+	c.Res.Counters["parallel-instances"] += int64(len(cases))
+}
